@@ -3,7 +3,8 @@
 Implementation runner: the PUBLIC optimizers with momentum and weight decay off —
 `distributed_shampoo.distributed_shampoo(...)` (beta1 = 0, weight_decay = 0; jit, or pmap for the int16-quantized
 mode) for every GraftingType x preconditioner mode (full Newton, eigh, compression_rank +r / -r,
-frequent_directions + reuse_preconditioner, best_effort_memory_usage_reduction with int16 second moments) x parameter
+frequent_directions + reuse_preconditioner, best_effort_memory_usage_reduction with int16 second moments,
+shard_optimizer_states under a one-device Mesh) x parameter
 trees (matrices, rank 3, rank 1, scalars, blocked, leaves excluded by rank / dimension) x start steps, and
 `tearfree.optimizer.tearfree(...)` / `tearfree.grafting.graft(options, direction)` for SGD / RMSPROP / ADAFACTOR
 grafts on Shampoo, Sketchy and hand-made direction transformations (including the zero direction).
@@ -30,7 +31,7 @@ from harness import kit, consts
 
 HUGE = 1_000_000
 DS_GRAFTS = ["SGD", "ADAGRAD", "RMSPROP", "RMSPROP_NORMALIZED", "SQRT_N", "ADAGRAD_NORMALIZED", "NONE"]
-DS_MODES = ["full", "eigh", "comp+", "comp-", "fd", "q16"]
+DS_MODES = ["full", "eigh", "comp+", "comp-", "fd", "q16", "sharded"]
 TF_GRAFTS = ["SGD", "RMSPROP", "ADAFACTOR"]
 TF_CUSTOM = ["neg2x", "zero", "perm2", "zero_odd"]
 
@@ -324,6 +325,10 @@ def _ds_build(c, graft, start, dlr):
         kw.update(compression_rank=c["rank"], frequent_directions=True, reuse_preconditioner=True)
     elif m == "q16":
         kw.update(best_effort_memory_usage_reduction=True, batch_axis_name="batch")
+    elif m == "sharded":
+        from jax.sharding import PartitionSpec as P
+        kw.update(shard_optimizer_states=True, statistics_partition_spec=P("x", None, None),
+                  preconditioner_partition_spec=P("x", None, None), num_devices_for_pjit=1)
     return ds.distributed_shampoo(
         c["lr"], block_size=c["block"], beta1=0.0, beta2=c["beta2"], diagonal_epsilon=c["diag_eps"],
         matrix_epsilon=1e-6, weight_decay=0.0, start_preconditioning_step=start,
@@ -346,6 +351,8 @@ def _ds_run(c, graft, start, dlr, params, grads):
     pm = c["mode"] == "q16"
     rep = (lambda t: jax.tree.map(lambda x: jnp.stack([x]), t)) if pm else (lambda t: t)
     unrep = (lambda t: jax.tree.map(lambda x: x[0], t)) if pm else (lambda t: t)
+    if c["mode"] == "sharded":
+        return _ds_run_sharded(opt, names, params, grads)
     state = rep(opt.init(params))
     upd = jax.pmap(opt.update, axis_name="batch") if pm else jax.jit(opt.update)
     rparams = rep(params)
@@ -363,6 +370,33 @@ def _ds_run(c, graft, start, dlr, params, grads):
         fps.append(h.hexdigest())
         if has_stats is None:
             has_stats = {n: len(s1.stats[n].statistics) > 0 for n in names}
+    return ups, accs, fps, has_stats
+
+
+def _ds_run_sharded(opt, names, params, grads):
+    """shard_optimizer_states=True: one-device Mesh + jit. The update of step t uses the preconditioners stored
+    BEFORE the step (the previous refresh), so the fingerprint taken is that of the state the step started from."""
+    import hashlib
+    import numpy as np
+    import jax
+    import jax.numpy as jnp
+    from jax.sharding import Mesh
+
+    def fp(state):
+        h = hashlib.md5()
+        for leaf in jax.tree_util.tree_leaves(state.stats.global_stats.preconditioners):
+            h.update(np.ascontiguousarray(np.asarray(leaf)).tobytes())
+        return h.hexdigest()
+    ups, accs, fps = [], [], []
+    with Mesh(np.array(jax.devices()[:1]), ("x",)):
+        state = opt.init(None).init_fn(params)
+        upd = jax.jit(opt.update)
+        has_stats = {n: len(state.stats.local_stats[n].sizes) > 0 for n in names}
+        for g in grads:
+            fps.append(fp(state))
+            u, state = upd({n: jnp.asarray(g[n]) for n in names}, state, params)
+            ups.append({n: np.asarray(u[n]) for n in names})
+            accs.append({n: np.asarray(state.stats.local_stats[n].diagonal_statistics.to_float()) for n in names})
     return ups, accs, fps, has_stats
 
 
@@ -917,7 +951,7 @@ def run(ctx):
     ctx.cov["rule"] = (
         "public optimizers with momentum and weight decay off, T = 5-6 steps of random (N(0,1) x scale in {1, 1e-3, 30, 1e-9 / 1e-12}) "
         "or integer-valued gradients, some steps with an all-zero gradient. Distributed Shampoo: 7 graft types x {full Newton, eigh, "
-        "compression_rank +r, -r, frequent_directions + reuse_preconditioner, int16-quantized (best_effort_memory_usage_reduction under pmap)} "
+        "compression_rank +r, -r, frequent_directions + reuse_preconditioner, int16-quantized (best_effort_memory_usage_reduction under pmap), sharded (shard_optimizer_states, one-device Mesh + jit; reference run for p in the same mode)} "
         "x 7 parameter trees (matrices, rank 3, rank 1, scalar, blocked, leaves excluded by rank / dimension) x start steps {0..4, never} "
         "x lr, decoupled or coupled, beta2, diagonal_epsilon, clip_by_scaled_gradient_norm; float64 trees excluded from preconditioning with "
         "gradients of the size of _EPSILON. Tearfree: {SGD, RMSPROP, ADAFACTOR} x {Shampoo, Sketchy, four hand-made direction transformations "
